@@ -5,7 +5,9 @@ import random
 NAME_ATOMS = [b"a", b"b", b"ab", b"a-b", b"a.b", b"a b", b"a!", b"a0", b"A", b"z", b"-", b"..a", b"a..", b".a",
               b"\xc3\xa9", b"\xff", b"a\\b", b"a+", b"a,", b"a\x01", b"foo", b"bar", b"c", b"d", b"a.txt", b"a-", b"a.",
               # names made of pattern metacharacters (legal file names; a pattern naming them has to escape them)
-              b"a[1]", b"[z]", b"x*", b"q?"]
+              b"a[1]", b"[z]", b"x*", b"q?",
+              # names shaped like the disk writer's own staging files (ordinary entries when they come from the source)
+              b".tmp.1", b".tmp.abc"]
 
 
 def name(rng, long_ok=True):
